@@ -24,14 +24,14 @@ after `execute` the job's run time differs from `due` or the job is not running 
 theorem trigger_failure_no_reexec (setT : St → St) (s : St) (j : Nat) (due : Int) (e : Err)
     (hfail : (updateNext setT (
         (if (s.job j).execFail.contains (s.job j).execs = true then
-          (((s.emit (Ev.exec j s.now due)).setJob j { s.job j with execs := (s.job j).execs + 1 })).emit (Ev.exc "CallableError")
-        else ((s.emit (Ev.exec j s.now due)).setJob j { s.job j with execs := (s.job j).execs + 1 }))) j).2 = some e) :
+          (((s.emit (Ev.exec j s.now due)).setJob j { s.job j with execs := (s.job j).execs + 1, lastRun := some s.now })).emit (Ev.exc "CallableError")
+        else ((s.emit (Ev.exec j s.now due)).setJob j { s.job j with execs := (s.job j).execs + 1, lastRun := some s.now }))) j).2 = some e) :
     ¬ (((execute setT s j due).job j).status = .running ∧ ((execute setT s j due).job j).nextRun = some due) := by
   unfold execute
   simp only []
   generalize (if (s.job j).execFail.contains (s.job j).execs = true then
-      (((s.emit (Ev.exec j s.now due)).setJob j { s.job j with execs := (s.job j).execs + 1 })).emit (Ev.exc "CallableError")
-    else ((s.emit (Ev.exec j s.now due)).setJob j { s.job j with execs := (s.job j).execs + 1 })) = s0 at hfail ⊢
+      (((s.emit (Ev.exec j s.now due)).setJob j { s.job j with execs := (s.job j).execs + 1, lastRun := some s.now })).emit (Ev.exc "CallableError")
+    else ((s.emit (Ev.exec j s.now due)).setJob j { s.job j with execs := (s.job j).execs + 1, lastRun := some s.now })) = s0 at hfail ⊢
   split
   · rename_i s' heq
     rw [heq] at hfail; cases hfail
